@@ -132,9 +132,14 @@ class C01:
                     out.append(V("C01", "rejected-proof-changed-state", f"PostProof by {v['creator']} was rejected (success=false) but the state changed (e.g. prover registered)"))
         if k == "attest":
             # an attestation quorum also refreshes the deadline: counted as "completed attestation quorum"
+            target = (v["prover"], v["merkle"], v["owner"], v["start"])
             for key, p in p1.items():
                 if key in p0 and p0[key]["lastProven"] != p["lastProven"]:
-                    self.proven.add(key)
+                    if key != target:
+                        out.append(V("C01", "attestation-credited-another-account",
+                                     f"attestation for the claim of {v['prover']} refreshed the proof deadline of {key[0]} instead"))
+                    else:
+                        self.proven.add(key)
         # prover status appears only through a successful PostProof by that account
         for key, f in f1.items():
             before = set(pk(x) for x in f0[key]["proofs"]) if key in f0 else set()
@@ -333,6 +338,17 @@ def c04(rec):
             out.append(V("C04", "other-denom-moved", f"{k}: {d} moved", op=k))
     if debit < 0:
         out.append(V("C04", "payer-credited", f"{k}: payer gained {-debit}", op=k))
+    # exact price: recomputed here from the message, the parameters, the price feed and the
+    # existing plan, independently of both the implementation and the Lean model
+    want = None
+    if k == "buyStorage" and isinstance(v.get("jklPrice"), int):
+        want = expected_buy_price(pre, rec["now"], v, referred)
+    elif k == "postFile" and v["expires"] > 0 and isinstance(v.get("jklPrice"), int):
+        want = expected_post_price(pre, rec["h"], v)
+    elif k == "postFile":
+        want = 0
+    if want is not None and payer != mod and debit != want:
+        out.append(V("C04", "debit-differs-from-price", f"{k}: payer debited {debit}ujkl, the price is {want}ujkl", op=k))
     credits = sum(x for (a, d), x in delta.items() if a != payer and a != mod and x > 0)
     if credits > debit:
         out.append(V("C04", "credits-exceed-debit", f"{k}: {credits} credited, {debit} debited", op=k))
@@ -360,6 +376,98 @@ def c04(rec):
             if not referred and ref is not None and ref != payer and delta.get((ref, "ujkl"), 0) != 0:
                 out.append(V("C04", "referrer-paid-unexpectedly", "referrer paid"))
     return out
+
+
+
+# ---- independent re-computation of the price formulas (exact sdk.Dec arithmetic, 18 decimals,
+# banker's rounding in Mul/Quo, truncation in QuoInt64/TruncateInt) for the C04 "exact price" clause
+PREC = 10 ** 18
+
+
+def _tdiv(a, b):
+    q = abs(a) // abs(b)
+    return q if (a >= 0) == (b >= 0) else -q
+
+
+def _chop_round(x):
+    neg, x = x < 0, abs(x)
+    q, r = divmod(x, PREC)
+    if r * 2 > PREC or (r * 2 == PREC and q % 2 == 1):
+        q += 1
+    return -q if neg else q
+
+
+def _mul(a, b):
+    return _chop_round(a * b)
+
+
+def _quo(a, b):
+    return None if b == 0 else _chop_round(_tdiv(a * PREC * PREC, b))
+
+
+def _trunc(a):
+    return _tdiv(a, PREC)
+
+
+def storage_cost(price_tb_month, gbs, hours, jkl):
+    base = price_tb_month * PREC
+    d12_5 = 12_500_000_000_000_000_000
+    yearly = _mul(base, _tdiv(d12_5, 15))
+    if hours < 365 * 24:
+        final = yearly if gbs >= 20000 else (_mul(base, _tdiv(14 * PREC, 15)) if gbs >= 5000 else base)
+    else:
+        if gbs >= 20000:
+            final = _mul(yearly, _quo(10_420_000_000_000_000_000, d12_5))
+        elif gbs >= 5000:
+            final = _mul(yearly, _quo(11_670_000_000_000_000_000, d12_5))
+        else:
+            final = yearly
+    per = _tdiv(_tdiv(_tdiv(final, 3), 1000), 720)
+    j = _quo(per * gbs * hours, jkl)
+    return None if j is None else _trunc(j * 1_000_000)
+
+
+def storage_cost_kbs(price_tb_month, kbs, hours, jkl):
+    per = price_tb_month * PREC
+    for dv in (3, 1000, 1000, 1000, 720):
+        per = _tdiv(per, dv)
+    j = _quo(per * kbs * hours, jkl)
+    return None if j is None else _trunc(j * 1_000_000)
+
+
+def expected_buy_price(pre, now, v, referred):
+    """what MsgBuyStorage must debit: the full price of the new plan, minus the unused remainder of
+    a still-running plan, minus the referral discount (10%, or 5% for plans above one year)"""
+    GB, HOUR_MS = 10 ** 9, 3_600_000
+    dur_ns = v["durationDays"] * 86_400_000_000_000
+    if not (-2 ** 63 <= dur_ns < 2 ** 63):
+        return None
+    dur_ms = _tdiv(dur_ns, 10 ** 6)
+    hours = _trunc(_quo(dur_ms * PREC, HOUR_MS * PREC))
+    p = pre["params"]["pricePerTbPerMonth"]
+    cost = storage_cost(p, _tdiv(v["bytes"], GB), hours, v["jklPrice"])
+    if cost is None:
+        return None
+    pi = dict(pre["payinfo"]).get(v["forAddress"])
+    if pi is not None and pi["endT"] > now:
+        left = max(-2 ** 63, min(2 ** 63 - 1, pi["endT"] - now))
+        left_hours = _trunc(_quo(_tdiv(left, 10 ** 6) * PREC, HOUR_MS * PREC))
+        old = storage_cost(p, _tdiv(pi["spaceAvailable"], GB), left_hours, v["jklPrice"])
+        if old is None:
+            return None
+        cost -= old
+    if referred:
+        long_ = dur_ms > 365 * 24 * HOUR_MS
+        cost = _trunc(_mul(cost * PREC, 950_000_000_000_000_000 if long_ else 900_000_000_000_000_000))
+    return cost
+
+
+def expected_post_price(pre, h, v):
+    total = v["fileSize"] * v["maxProofs"]
+    kbs = max(1024, _tdiv(total, 1000)) if _tdiv(total, 1000) >= 1024 else 1024
+    seconds = (v["expires"] - h) * 6
+    hours = _tdiv(_tdiv(seconds, 60), 60)
+    return storage_cost_kbs(pre["params"]["pricePerTbPerMonth"], kbs, hours, v["jklPrice"])
 
 
 # ---------------------------------------------------------------- C05 (panics are reported by bin/check itself)
